@@ -34,8 +34,9 @@ def mirror(s):
 
 
 import re as _re
-_LOCALSTRUCT = _re.compile(r"^(\w+)\.")
+_LOCALSTRUCT = _re.compile(r"^(\w+)[.\[]")
 _OFF = _re.compile(r"^\((.*)\+#(\d+)\)$")
+_NEVERNULL = {}
 _PTRCOPY = _re.compile(r"^((?:[A-Za-z_]\w*)(?:(?:->|\.)\w+)+)@\d+$")
 
 
@@ -145,7 +146,7 @@ class Path:
 
 
 class State:
-    __slots__ = ("env", "epoch", "cons", "events", "visits", "blocks", "atoms", "nodeval", "fresh", "det", "lver", "fver", "frames", "nact")
+    __slots__ = ("env", "epoch", "cons", "events", "visits", "blocks", "atoms", "nodeval", "fresh", "det", "lver", "fver", "frames", "nact", "prob")
 
     def copy(self):
         s = State()
@@ -163,6 +164,7 @@ class State:
         s.fver = dict(self.fver)
         s.frames = [fr.clone() for fr in self.frames]
         s.nact = self.nact
+        s.prob = self.prob
         return s
 
 
@@ -178,13 +180,15 @@ class Frame:
 
 
 class APE:
-    def __init__(self, prog, cg, func, bound=1, max_paths=60000, opaque_calls=(), start_env=None):
+    def __init__(self, prog, cg, func, bound=1, max_paths=60000, opaque_calls=(), start_env=None, inline=()):
         self.prog, self.cg, self.f = prog, cg, func
         self.bound = bound
+        self._loopcache = {}
         self.max_paths = max_paths
         self.unit = func.unit
         self.paths = []
         self.opaque_calls = set(opaque_calls)
+        self.inline = set(inline)     # known functions a rule wants evaluated as part of their caller
         self.start_env = start_env or {}
         from .facts import walk as _walk
         self.localnames = set(p["name"] for p in func.params)
@@ -212,6 +216,10 @@ class APE:
         if not callee or callee in self.opaque_calls or len(st.frames) >= 3:
             return None
         g = self.prog.helper(callee, self.unit) if hasattr(self.prog, "helper") else None
+        if g is None and (callee in self.inline or "*static" in self.inline):
+            g = self.prog.func(callee, self.unit)
+            if g is not None and callee not in self.inline and not (g.d.get("static") and g.file == self.f.file):
+                g = None        # "*static": internal functions written in the same source file only (not header inlines)
         if g is None or g.body is None:
             return None
         if g is self.f or any(fr.func is g for fr in st.frames):
@@ -249,6 +257,10 @@ class APE:
             key = self._valkey(st, n)
             if key in st.env:
                 return st.env[key]
+            if k in ("MemberExpr", "ArraySubscriptExpr"):
+                cg_ = self._const_global_read(st, n)
+                if cg_ is not None:
+                    return cg_
             if k == "DeclRefExpr" and n.get("dk") in ("local", "param", "func", "global", "slocal"):
                 if n.get("dk") in ("func",):
                     return ("s", "&" + n["name"])
@@ -258,10 +270,10 @@ class APE:
                     st.env[key] = v_
                     return v_
                 return ("s", key)
-            m = _LOCALSTRUCT.match(key)
-            if m:
+            lo = self._localobj(key, n)
+            if lo:
                 # member of a local struct object: changes only by stores to it or calls given its address
-                v_ = ("s", "%s@L%d" % (key, st.lver.get(m.group(1), 0)))
+                v_ = ("s", "%s@L%d" % (key, st.lver.get(lo, 0)))
             else:
                 v_ = ("s", "%s@%d" % (key, st.epoch + st.fver.get(_lastfield(key), 0)))
             # remember the value read: later reads see the same symbol until something that may write this key intervenes
@@ -277,6 +289,18 @@ class APE:
             if op == "-" and a[0] == "c":
                 return ("c", -a[1])
             if op == "&":
+                sub = strip(n["kids"][0])
+                if sub is not None and sub["k"] == "ArraySubscriptExpr":
+                    bs = strip(sub["kids"][0])
+                    bt = (bs.get("ct") or bs.get("t") or "") if bs is not None else ""
+                    bt = _re.sub(r"(\s*\b(const|volatile|restrict|__restrict)\b)+\s*$", "", bt)
+                    if bs is not None and bt.rstrip().endswith("*") and "[" not in bt:
+                        # &p[i] of a pointer p is p + i
+                        pa, pb = self.val(st, sub["kids"][0]), self.val(st, sub["kids"][1])
+                        if pa[0] == "s" and pb[0] == "c":
+                            return add_const(pa, pb[1])
+                        if pa[0] == "s":
+                            return ("s", "(%s+%s)" % (vstr(pa), vstr(pb)))
                 return ("s", "&" + self._valkey(st, n["kids"][0]))
             if op in ("+", "__extension__"):
                 return a
@@ -341,6 +365,63 @@ class APE:
             return ("s", canon(n))
         return ("s", canon(n))
 
+    def _const_global_read(self, st, n):
+        """Value of an element of a const global aggregate with a constant initialiser (a name table, a dispatch table),
+        when every index on the way is a known constant on this path; else None."""
+        steps = []
+        b = strip(n)
+        while b is not None and b["k"] in ("MemberExpr", "ArraySubscriptExpr"):
+            if b["k"] == "MemberExpr":
+                if b.get("arrow") or "fidx" not in b:
+                    return None
+                steps.append(("f", b["fidx"]))
+                b = strip(b["kids"][0])
+            else:
+                iv = self.val(st, b["kids"][1])
+                if iv[0] != "c":
+                    return None
+                steps.append(("i", iv[1]))
+                b = strip(b["kids"][0])
+        if b is None or b["k"] != "DeclRefExpr" or b.get("dk") not in ("global", "slocal"):
+            return None
+        g = self.prog.globals.get((self.cur(st).unit, b["name"])) if hasattr(self.prog, "globals") else None
+        if g is None or not g.get("const") or g.get("init") is None:
+            return None
+        x = strip(g["init"])
+        for kind, i in reversed(steps):
+            if x is None or x["k"] != "InitListExpr":
+                return None
+            ks = kids(x)
+            if not (0 <= i < len(ks)):
+                return None
+            x = strip(ks[i])
+        if x is None:
+            return None
+        raw = x
+        if "val" in raw:
+            return ("c", raw["val"])
+        if raw["k"] == "StringLiteral":
+            return ("s", canon(raw))
+        if raw["k"] == "DeclRefExpr" and raw.get("dk") == "func":
+            return ("s", "&" + raw["name"])
+        if raw["k"] == "ImplicitValueInitExpr" or raw.get("null"):
+            return ("c", 0)
+        return None
+
+    def _localobj(self, key, n):
+        """Name of the local object (struct, or array declared in the function) that lvalue n / key lies in, else None."""
+        m = _LOCALSTRUCT.match(key)
+        if not m:
+            return None
+        if key[m.end() - 1] == "[":
+            b = strip(n)
+            while b is not None and b["k"] in ("ArraySubscriptExpr", "MemberExpr") and not b.get("arrow"):
+                b = strip(b["kids"][0])
+            t = (b.get("ct") or b.get("t") or "") if b is not None else ""
+            if not (b is not None and b["k"] == "DeclRefExpr" and b.get("dk") in ("local", "slocal") and "[" in t):
+                return None     # p[i] of a local *pointer* is shared memory
+        return m.group(1)
+
     def _valkey(self, st, n):
         """Key of an lvalue with the *values* of local pointers substituted for
         nothing (kept syntactic): canonical string."""
@@ -376,6 +457,11 @@ class APE:
             bk = self._valkey(st, n["kids"][0])
             if bk.startswith("&") and st.frames:
                 return bk[1:]
+            # a local pointer (or an element of a local table of pointers) that holds the address of a place: *p is the place
+            hv = st.env.get(bk)
+            if hv is not None and hv[0] == "s" and hv[1].startswith("&") and "(" not in hv[1] and "@" not in hv[1] \
+                    and (self._is_var_key(bk) or self._localobj(bk, n["kids"][0])):
+                return hv[1][1:]
             return "*" + bk
         if k == "UnaryOperator" and n.get("op") == "&":
             return "&" + self._valkey(st, n["kids"][0])
@@ -477,9 +563,9 @@ class APE:
 
     def _store(self, st, lhs, v, node, B):
         key = self._valkey(st, lhs)
-        m = _LOCALSTRUCT.match(key)
-        if m:
-            st.lver[m.group(1)] = st.lver.get(m.group(1), 0) + 1
+        lo = self._localobj(key, lhs)
+        if lo:
+            st.lver[lo] = st.lver.get(lo, 0) + 1
         if not self._is_var_key(key):
             # memory store: drop everything that has this key as a prefix, or that may alias
             # the same field through another base
@@ -553,6 +639,17 @@ class APE:
                         st.env[key] = ("s", "%s.out%d#%d" % (name, i, st.fresh))
                         cev.outs[i] = st.env[key]
                         continue
+                av = argv[i] if i < len(argv) else None
+                if av is not None and av[0] == "s" and av[1].startswith("&") and self._is_var_key(av[1][1:]):
+                    # a pointer whose value is the address of a local of this path (a helper's out-parameter handed on)
+                    st.fresh += 1
+                    key = av[1][1:]
+                    st.lver[key] = st.lver.get(key, 0) + 1
+                    for k in [k for k in st.env if k.startswith((key + ".", key + "->", "*" + key))]:
+                        del st.env[k]
+                    st.env[key] = ("s", "%s.out%d#%d" % (name, i, st.fresh))
+                    cev.outs[i] = st.env[key]
+                    continue
                 only_locals = False
             if not only_locals:
                 wf = self.cg.call_wfields(self.unit, n, self.cur(st))
@@ -665,6 +762,8 @@ class APE:
                     if d.get("init") is not None:
                         ini = strip(d["init"])
                         if ini["k"] == "InitListExpr":
+                            # aggregate initialiser of a local: each element / member gets its initialiser's value
+                            self._init_list(st, key, ini, n, B)
                             continue
                         v = self.val(st, d["init"])
                         for kk in [kk for kk in st.env if kk.startswith(key + "->") or kk.startswith("*" + key)
@@ -686,6 +785,36 @@ class APE:
                 # the value was chosen in an earlier block; keep it opaque but stable
                 pass
         return None
+
+    def _init_list(self, st, key, ini, node, B, depth=0):
+        if depth > 3:
+            return
+        rec = ini.get("rec")
+        fields = None
+        if rec:
+            r = self.prog.record(rec, self.unit)
+            fields = [f_["name"] for f_ in r["fields"]] if r else None
+        if fields is None and (ini.get("ct") or ini.get("t") or "").startswith(("struct", "const struct", "union")):
+            # an unnamed local struct type: member names from the accesses to objects of that type in this function
+            from .facts import walk as _w
+            want = (ini.get("ct") or ini.get("t") or "").replace("const ", "")
+            byidx = {}
+            for x in _w(self.cur(st).body):
+                if x.get("k") == "MemberExpr" and "fidx" in x:
+                    bt = (strip(x["kids"][0]).get("ct") or strip(x["kids"][0]).get("t") or "").replace("const ", "").rstrip(" *")
+                    if bt == want:
+                        byidx[x["fidx"]] = x["field"]
+            if byidx:
+                fields = [byidx.get(i, "#%d" % i) for i in range(max(byidx) + 1)]
+        for i, k in enumerate(kids(ini)):
+            sub = (key + "." + fields[i]) if fields and i < len(fields) else "%s[#%d]" % (key, i)
+            ks = strip(k)
+            if ks is not None and ks["k"] == "InitListExpr":
+                self._init_list(st, sub, ks, node, B, depth + 1)
+            elif ks is not None and ks["k"] not in ("ImplicitValueInitExpr",):
+                v = self.val(st, k)
+                st.env[sub] = v
+                st.events.append(Event("store", node, B.id, sub, v))
 
     def _enter(self, st, g, call, argv, cont):
         """Start evaluating helper g as part of the current path."""
@@ -750,6 +879,7 @@ class APE:
         st.cons = {}
         st.events = []
         st.visits = {}
+        st.prob = None
         st.blocks = []
         st.atoms = {}
         st.nodeval = {}
@@ -774,6 +904,52 @@ class APE:
         p.events, p.cons, p.end, p.blocks, p.atoms = st.events, st.cons, end, st.blocks, st.atoms
         self.paths.append(p)
 
+    def _never_null(self, sym):
+        """Is `sym` the result symbol of a library function all of whose returning paths establish result != 0
+        (my_malloc and friends assert it)?  Decided from the callee's own paths, cached per program."""
+        m = _re.match(r"^([A-Za-z_]\w*)\(", sym)
+        if not m or not (sym.endswith(")") or _re.search(r"\)[#@]\d+$", sym)):
+            return False
+        name = m.group(1)
+        cache = _NEVERNULL.setdefault(id(self.prog), {})
+        key = (name, self.unit)
+        if key in cache:
+            return cache[key]
+        cache[key] = False           # while being computed (recursion), and the default
+        g = self.prog.func(name, self.unit) if hasattr(self.prog, "func") else None
+        if g is None and hasattr(self.prog, "helper"):
+            g = self.prog.helper(name, self.unit)
+        if g is None or g.body is None or not (g.d.get("cret") or g.d.get("ret") or "").rstrip().endswith("*"):
+            return False
+        try:
+            sub = APE(self.prog, self.cg, g, bound=1, max_paths=200)
+            sub.run()
+        except BrokenAnalysis:
+            return False
+        rets = [p for p in sub.paths if p.end == "exit"]
+        ok = bool(rets)
+        for p in rets:
+            r = p.ret()
+            if r is None or r[0] == "c" and r[1] == 0:
+                ok = False
+                break
+            if r[0] == "c":
+                continue
+            c = p.cons.get((vstr(r), "#0"))
+            if c is None or EQ in c:
+                ok = False
+                break
+        cache[key] = ok
+        return ok
+
+    def _loops(self, f):
+        c = self._loopcache.get(id(f))
+        if c is None:
+            from . import cfg as _cfg
+            c = _cfg.natural_loops(f)
+            self._loopcache[id(f)] = c
+        return c
+
     def _step(self, item, stack):
         bid, st, ri, ni = item
         f = self.cur(st)
@@ -783,8 +959,13 @@ class APE:
             vk = (act, bid)
             v = st.visits.get(vk, 0)
             if v > self.bound and not (getattr(st, "det", False) and v < 4096):
-                self._finish(st, "cut")
-                return
+                # over the bound at a loop header: go on only if the loop condition turns out to be decided by constants
+                # (a constant-trip loop over a table, whatever its body forks on); otherwise the path is cut here
+                if v < 4096 and st.prob is None and B.cond is not None and len(B.succs) == 2 and bid in self._loops(f):
+                    st.prob = (act, bid)
+                else:
+                    self._finish(st, "cut")
+                    return
             st.visits[vk] = v + 1
             st.blocks.append(bid)
             if not st.frames and bid in self.stop:
@@ -827,6 +1008,14 @@ class APE:
             lop = None
             if B.termk == "BinaryOperator" and B.term is not None and B.term.get("op") in ("&&", "||"):
                 lop = B.term
+            if st.prob is not None and st.prob == (act, bid):
+                st.prob = None
+                if not isinstance(lit, bool):
+                    self._finish(st, "cut")
+                    return
+                for b_ in self._loops(f)[bid]:
+                    if b_ != bid:
+                        st.visits[(act, b_)] = 0
             if isinstance(lit, bool):
                 if lop is not None:
                     st.nodeval.pop(lop["id"], None)
@@ -845,6 +1034,14 @@ class APE:
                 return
             atom, acc, nodes = lit
             cur = st.cons.get(atom, ALL)
+            if atom not in st.cons and _re.match(r"^#-?\d+$", atom[1]):
+                # the path already knows the value equals another constant
+                for (a2, b2), v2 in st.cons.items():
+                    if a2 == atom[0] and v2 == frozenset((EQ,)) and b2 != atom[1] and _re.match(r"^#-?\d+$", b2):
+                        cur = cur & frozenset((LT,) if int(b2[1:]) < int(atom[1][1:]) else (GT,))
+            if atom not in st.cons and atom[1] == "#0" and self._never_null(atom[0]):
+                # the result of an allocation wrapper that stops the process instead of returning NULL
+                cur = cur & frozenset((LT, GT))
             outs = []
             for i, a in ((0, acc), (1, ALL - acc)):
                 new = cur & a
@@ -900,21 +1097,43 @@ class APE:
             else:
                 default = s
         seen = st.cons.get(key)
+        vs = vstr(v)
+
+        def rel_to(cv):
+            """What the path already knows about  value ? cv  from comparisons with constants."""
+            if cv is None:
+                return ALL
+            c = st.cons.get((vs, "#%d" % cv), ALL)
+            for (a2, b2), v2 in st.cons.items():
+                if a2 == vs and v2 == frozenset((EQ,)) and _re.match(r"^#-?\d+$", b2) and int(b2[1:]) != cv:
+                    c = c & frozenset((LT,) if int(b2[1:]) < cv else (GT,))
+            return c
         for s, cv, cn in cases:
             tag = cn or ("#%s" % cv)
             if v[0] == "c" and v[1] != cv:
                 continue
             if seen is not None and tag not in seen:
                 continue
+            if v[0] != "c" and EQ not in rel_to(cv):
+                continue      # an earlier comparison on this path excludes this case
             s2 = st.copy()
             s2.cons[key] = frozenset((tag,))
+            if v[0] != "c" and cv is not None:
+                s2.cons[(vs, "#%d" % cv)] = frozenset((EQ,))
             s2.events.append(Event("branch", B.cond, B.id, key, frozenset((tag,))))
             stack.append((s, s2, 0, 0))
         if default is not None:
             if v[0] == "c" and any(cv == v[1] for _, cv, _ in cases):
                 return
+            if v[0] != "c" and any(cv is not None and rel_to(cv) == frozenset((EQ,)) for _, cv, _ in cases):
+                return        # the path has established that the value equals one of the case constants
             s2 = st.copy()
             s2.cons[key] = frozenset(("default",))
+            if v[0] != "c":
+                for _, cv, _ in cases:
+                    if cv is not None:
+                        k2 = (vs, "#%d" % cv)
+                        s2.cons[k2] = s2.cons.get(k2, ALL) & frozenset((LT, GT))
             s2.events.append(Event("branch", B.cond, B.id, key, frozenset(("default",))))
             stack.append((default, s2, 0, 0))
 
